@@ -1,0 +1,6 @@
+//go:build !verif
+
+package bft
+
+// verifJustifiedGap is a no-op without the verif build tag (see verif_hooks.go).
+func verifJustifiedGap() {}
